@@ -243,3 +243,201 @@ pub fn dispatch(t: &Info, first: u8) -> Disp {
         Disp::Reject
     }
 }
+
+// ---- the whole extension sequence (what follows the language identifier) ------------------
+
+#[derive(Clone, Copy, PartialEq, Eq)]
+pub enum Zone {
+    /// well-formed: must be accepted with exactly `u`, `t`, `p`
+    MustAccept,
+    /// must be rejected (malformed / misplaced subtag, multi-character or repeated singleton, second tlang)
+    MustReject,
+    /// ill-formed only through emptiness, a tkey without value, or an 'other' singleton: either answer
+    Either,
+}
+#[derive(Clone, Copy)]
+pub struct MapModel {
+    pub zone: Zone,
+    pub u: UModel,
+    pub t: TModel,
+    pub p: PModel,
+    pub over: bool,
+}
+
+/// any tfield key without a value (`t-h0`): ill-formed by the EBNF (tfield = tkey tvalue+); either zone
+fn t_has_empty_field(m: &TModel) -> bool {
+    let mut i = 0;
+    let mut e = false;
+    while i < KMAX {
+        if i < m.fields.nkeys && m.fields.nvals[i] == 0 {
+            e = true;
+        }
+        i += 1;
+    }
+    e
+}
+
+pub fn parse_map<const K: usize>(inf: &[Info; K], toks: &[crate::sym::Tok; K]) -> MapModel {
+    let mut r = MapModel {
+        zone: Zone::MustAccept,
+        u: UModel { attrs: [NOTXT; spec::VMAX], nattrs: 0, kw: KV::new() },
+        t: TModel { tlang: None, fields: KV::new() },
+        p: PModel { tags: [NOTXT; spec::VMAX], ntags: 0 },
+        over: false,
+    };
+    let mut seen_u = false;
+    let mut seen_t = false;
+    let mut either = false;
+    let mut next = 0; // index of the next subtag the dispatcher looks at
+    let mut done = false;
+    let mut i = 0;
+    while i < K {
+        if !done && i == next {
+            match dispatch(&inf[i], toks[i].b[0]) {
+                Disp::U => {
+                    if seen_u {
+                        r.zone = Zone::MustReject;
+                        return r;
+                    }
+                    seen_u = true;
+                    let (m, end, over) = parse_u(inf, i + 1);
+                    r.over |= over;
+                    match m {
+                        Ok(m) => r.u = m,
+                        Err(()) => {
+                            r.zone = Zone::MustReject;
+                            return r;
+                        }
+                    }
+                    if end == i + 1 {
+                        either = true;
+                    }
+                    next = end;
+                }
+                Disp::T => {
+                    if seen_t {
+                        r.zone = Zone::MustReject;
+                        return r;
+                    }
+                    seen_t = true;
+                    let (m, end, over) = parse_t(inf, i + 1);
+                    r.over |= over;
+                    match m {
+                        Ok(m) => {
+                            if t_has_empty_field(&m) {
+                                either = true;
+                            }
+                            r.t = m;
+                        }
+                        Err(()) => {
+                            r.zone = Zone::MustReject;
+                            return r;
+                        }
+                    }
+                    if end == i + 1 {
+                        either = true;
+                    }
+                    next = end;
+                }
+                Disp::X => {
+                    match parse_x(inf, i + 1) {
+                        Ok(m) => r.p = m,
+                        Err(()) => {
+                            r.zone = Zone::MustReject;
+                            return r;
+                        }
+                    }
+                    if i + 1 == K {
+                        either = true;
+                    }
+                    if K - (i + 1) > spec::VMAX {
+                        r.over = true;
+                    }
+                    done = true;
+                }
+                Disp::Empty => {
+                    either = true;
+                    next = i + 1;
+                }
+                Disp::Other => {
+                    r.zone = Zone::Either;
+                    return r;
+                }
+                Disp::Reject => {
+                    r.zone = Zone::MustReject;
+                    return r;
+                }
+            }
+        }
+        i += 1;
+    }
+    if either {
+        r.zone = Zone::Either;
+    }
+    r
+}
+
+// ---- reference serialisation of the extension models ("-t..." "-u..." "-x...") -------------
+use crate::spec::{write_byte, write_langid, write_txt};
+
+fn write_kv(out: &mut [u8], pos: &mut usize, kv: &KV) {
+    let mut i = 0;
+    while i < KMAX {
+        if i < kv.nkeys {
+            write_byte(out, pos, b'-');
+            write_txt(out, pos, &kv.keys[i]);
+            let mut j = 0;
+            while j < TYMAX {
+                if j < kv.nvals[i] {
+                    write_byte(out, pos, b'-');
+                    write_txt(out, pos, &kv.vals[i][j]);
+                }
+                j += 1;
+            }
+        }
+        i += 1;
+    }
+}
+pub fn write_u(out: &mut [u8], pos: &mut usize, m: &UModel) {
+    if m.nattrs == 0 && m.kw.nkeys == 0 {
+        return;
+    }
+    write_byte(out, pos, b'-');
+    write_byte(out, pos, b'u');
+    let mut i = 0;
+    while i < spec::VMAX {
+        if i < m.nattrs {
+            write_byte(out, pos, b'-');
+            write_txt(out, pos, &m.attrs[i]);
+        }
+        i += 1;
+    }
+    write_kv(out, pos, &m.kw);
+}
+pub fn write_t(out: &mut [u8], pos: &mut usize, m: &TModel) {
+    if m.tlang.is_none() && m.fields.nkeys == 0 {
+        return;
+    }
+    write_byte(out, pos, b'-');
+    write_byte(out, pos, b't');
+    if let Some(l) = &m.tlang {
+        write_byte(out, pos, b'-');
+        write_langid(out, pos, l);
+    }
+    write_kv(out, pos, &m.fields);
+}
+pub fn write_p(out: &mut [u8], pos: &mut usize, m: &PModel) {
+    if m.ntags == 0 {
+        return;
+    }
+    write_byte(out, pos, b'-');
+    write_byte(out, pos, b'x');
+    let mut i = 0;
+    while i < spec::VMAX {
+        if i < m.ntags {
+            write_byte(out, pos, b'-');
+            write_txt(out, pos, &m.tags[i]);
+        }
+        i += 1;
+    }
+}
